@@ -3,12 +3,14 @@
 package main
 
 import (
+	"sort"
 	"bytes"
 	"crypto/sha256"
 	"fmt"
 	"runtime"
 	"strings"
 
+	"golang.org/x/crypto/ssh"
 	"golang.org/x/crypto/ssh/agent"
 
 	"github.com/theparanoids/ysshra/internal/zzverif/bfs"
@@ -232,16 +234,36 @@ func (x *c10World) applyOp(op bfs.Op) (fs []bfs.Finding) {
 	if op.Name == "SignViaSigners" {
 		r = w.exec(bfs.Op{Name: "Signers"})
 		if r.err == nil && r.panic == "" {
-			found := false
+			// every signer object for this blob is used, in an order that does not depend on the order Signers() happened
+			// to return them in (a certificate held twice yields two, and the shim sorts with a comparator that leaves
+			// the order of duplicates to map iteration): the operation fails if any of them fails
+			var match []ssh.Signer
 			for _, s := range r.signers {
 				if bytes.Equal(s.PublicKey().Marshal(), id.blob) {
-					found = true
-					r.data = []byte("signed through the signer object")
-					r.panic = ev.Guard(func() { r.sig, r.err = s.Sign(nil, r.data) })
-					break
+					match = append(match, s)
 				}
 			}
-			if !found {
+			sort.SliceStable(match, func(i, j int) bool { return fmt.Sprintf("%T", match[i]) < fmt.Sprintf("%T", match[j]) })
+			r.data = []byte("signed through the signer object")
+			for _, s := range match {
+				s := s
+				var sig *ssh.Signature
+				var serr error
+				if p := ev.Guard(func() { sig, serr = s.Sign(nil, r.data) }); p != "" {
+					r.panic = p
+					break
+				}
+				if serr != nil {
+					r.sig, r.err = nil, serr
+					break
+				}
+				if verr := id.pub.Verify(r.data, sig); verr != nil {
+					r.sig, r.err = sig, nil // the bad signature is judged below
+					break
+				}
+				r.sig = sig
+			}
+			if len(match) == 0 {
 				r.err = fmt.Errorf("no signer for %s", op.Arg)
 			}
 		}
